@@ -35,6 +35,7 @@ def step (line : String) : String :=
   | "fb" :: ws => cmdFb ws
   | "fan" :: ws => cmdFan ws
   | "filter" :: ws => cmdFilter ws
+  | "hub" :: ws => cmdHub ws
   | "mux" :: ws => cmdMux ws
   | "srv" :: ws => cmdSrv ws
   | "ing" :: ws => cmdIng ws
